@@ -4,6 +4,7 @@
      fuel is never what rejects), rejects every self reference, and a graph it accepts is ranked;
    * on a ranked graph the expansion loop of _resolve_use has no live reference left after |ids|+1
      passes, i.e. the `while True` exits (or a dangling reference raises);
+   * the tidy loop of topicosvg exits within #groups + 1 iterations when removals shrink the group count;
    * following gradient hrefs ends, for every table of references, in a result or in an exception
      (RecursionError for every cyclic chain);
    * _resolve_clip_path: fuelled model in Clips.v (C03), cycles end in the recursion error.
@@ -28,6 +29,13 @@ Proof. intros g a refs. apply kahn_self_loop. Qed.
 Theorem C17_expansion_ends : forall g, use_check g = true -> forall a, live g (S (List.length g)) a = [].
 Proof. exact expansion_ends. Qed.
 
+(* the tidy loop at the end of topicosvg: as long as a reported removal means that a group disappeared
+   (observed on real conversions by the correspondence run), it exits within #groups + 1 iterations *)
+Theorem C17_tidy_loop_ends : forall (state : Type) (step : state -> state * bool) (groups : state -> nat),
+  (forall s, snd (step s) = true -> groups (fst (step s)) < groups s) ->
+  forall fuel s, groups s < fuel -> exists s', tidy state step fuel s = Some s'.
+Proof. exact tidy_ends. Qed.
+
 Theorem C17_href_chain_ends : forall href limit depth cur,
   match follow href limit depth cur with
   | Resolved d | Dangling d => depth <= d < depth + limit
@@ -45,6 +53,6 @@ Proof. vm_compute. reflexivity. Qed.
 Example C17_rejects_3cycle : use_check [("a", ["b"]); ("b", ["c"]); ("c", ["a"]); ("d", [])] = false.
 Proof. vm_compute. reflexivity. Qed.
 
-Definition C17_all := (C17_check_fuel_irrelevant, C17_check_accepts_only_ranked, C17_check_rejects_self_reference, C17_expansion_ends,
+Definition C17_all := (C17_tidy_loop_ends, C17_check_fuel_irrelevant, C17_check_accepts_only_ranked, C17_check_rejects_self_reference, C17_expansion_ends,
                        C17_href_chain_ends, C17_href_cycle_raises, C17_accepts, C17_rejects_3cycle).
 Print Assumptions C17_all.
